@@ -355,7 +355,7 @@ class FullMetalBarrageComponent(
 
     @view_method
     def validity(self, state: FullMetalBarrageState):
-        return self.validity_in_cooldown_trait(state)
+        return self.validity_in_keydown_trait(state)
 
     @view_method
     def keydown(self, state: FullMetalBarrageState):
